@@ -14,6 +14,9 @@ def run(c):
     cfg = 'Strategy_thorough.cfg' if thorough else 'Strategy.cfg'
     res = vlib.table_check(c, 'Strategy', cfg, 'c19', workers=16 if thorough else 8,
                            tlc_timeout=3000 if thorough else 900)
+    # stored keys that hold an EMPTY value (to an iterator: nothing stored; a merge result that is empty removes them)
+    res2 = vlib.table_check(c, 'Strategy', 'Strategy_empty.cfg', 'c19', workers=8, tlc_timeout=900)
+    c.traces += res2['counters'].get('rows', 0)
     c.extra['exhaustive'] = True
     c.extra['rule'] = ('every (stored content over 4 keys, input sequence, decision per key, strategy) case of the '
                        'specification x key concretisations on a real LMDB; distinct = table rows')
